@@ -127,6 +127,11 @@ class Harness:
         self.path.inputs["case:" + name] = k
         return options[k]
 
+    def exact(self, x):
+        """The exact value of a number for use in an obligation: symbolically numbers are exact already; natively a
+        float is taken as the rational it is (obligations must not be decided by rounding in their own arithmetic)."""
+        return x
+
     def native_choice(self, name, options):
         """A choice that only steers the *native search* towards interesting inputs (e.g. "the checksum is the real
         CRC with its bytes swapped"): the symbolic reading covers all inputs anyway and takes options[0]."""
@@ -460,6 +465,14 @@ class NativeHarness:
     def choice(self, name, options):
         return options[int(self.inputs["case:" + name])]
 
+    def exact(self, x):
+        from fractions import Fraction
+        if isinstance(x, bool) or x is None:
+            return x
+        if isinstance(x, (int, float)):
+            return Fraction(x)
+        return x
+
     def native_choice(self, name, options):
         k = self.inputs.get("native:" + name)
         return options[int(k)] if k is not None else options[0]
@@ -671,6 +684,12 @@ class ConcreteHarness(Harness):
         if name not in self.inputs_in:
             raise SkipConformance(f"no recorded value for {name}")
         return self.inputs_in[name]
+
+    def exact(self, x):
+        from fractions import Fraction
+        if isinstance(x, bool) or x is None or not isinstance(x, (int, float)):
+            return x
+        return Fraction(x)
 
     def native_choice(self, name, options):
         if self.inputs_in.get("native:" + name):
